@@ -317,8 +317,16 @@ func init() {
 		}
 		return nil, nil, true
 	})
+	// sync.Pool: Get returns the most recently Put object if there is one (what a single goroutine
+	// observes without GC), else New(); re-use is the adversarial choice for state leaking between uses
 	reg("(*sync.Pool).Get", func(in *Interp, s *State, c *callCtx) (Value, []*State, bool) {
 		p := c.args[0].(*Ptr)
+		k := p.key()
+		if l := s.pools[k]; len(l) > 0 {
+			v := l[len(l)-1]
+			s.pools[k] = l[:len(l)-1]
+			return v, nil, true
+		}
 		pool := in.load(s, p).(*Agg)
 		// field "New" is the last field of sync.Pool
 		nf, ok := pool.Elems[len(pool.Elems)-1].(*Func)
@@ -328,7 +336,17 @@ func init() {
 		in.pushFrame(s, c.th, nf.Fn, nil, nf.Env, c.retTo, c.rk)
 		return nil, nil, false
 	})
-	reg("(*sync.Pool).Put", func(in *Interp, s *State, c *callCtx) (Value, []*State, bool) { return nil, nil, true })
+	reg("(*sync.Pool).Put", func(in *Interp, s *State, c *callCtx) (Value, []*State, bool) {
+		if iv, ok := c.args[1].(*Iface); ok && iv.T == nil {
+			return nil, nil, true
+		}
+		if s.pools == nil {
+			s.pools = map[string][]Value{}
+		}
+		k := c.args[0].(*Ptr).key()
+		s.pools[k] = append(append([]Value(nil), s.pools[k]...), c.args[1])
+		return nil, nil, true
+	})
 	// Gosched yields once: the other live threads get to run until they block or finish
 	reg("runtime.Gosched", func(in *Interp, s *State, c *callCtx) (Value, []*State, bool) {
 		if c.th.yielded {
